@@ -150,7 +150,7 @@ fn assemble_with_command(
 
 		for filename in &command.input_filenames
 		{
-			println!("assembling `{}`...", filename);
+			let _ = print_line(&format!("assembling `{}`...", filename));
 		}
 	}
 
@@ -183,18 +183,21 @@ fn assemble_with_command(
 			{
 				if !command.quiet
 				{
-					println!("");
+					let _ = print_line("");
 				}
 
-				println!(
-					"{}",
-					String::from_utf8_lossy(&formatted));
+				// The output itself could not be printed
+				if print_line(&String::from_utf8_lossy(&formatted)).is_err()
+				{
+					report.error("could not print to the standard output");
+					return Err(());
+				}
 			}
 			else if let Some(ref output_filename) = output_group.output_filename
 			{
 				if !command.quiet
 				{
-					println!("writing `{}`...", &output_filename);
+					let _ = print_line(&format!("writing `{}`...", &output_filename));
 				}
 
 				fileserver.write_bytes(
@@ -208,13 +211,25 @@ fn assemble_with_command(
 
 	if !command.quiet
 	{
-		println!(
+		let _ = print_line(&format!(
 			"resolved in {} iteration{}",
 			iterations_taken,
-			if iterations_taken == 1 { "" } else { "s" });
+			if iterations_taken == 1 { "" } else { "s" }));
 	}
 
 	Ok(assembly)
+}
+
+
+/// Prints a line to the standard output. A failure to do so
+/// (a closed pipe, a full device) is reported to the caller
+/// instead of causing a panic.
+fn print_line(text: &str) -> Result<(), ()>
+{
+	use std::io::Write;
+
+	writeln!(std::io::stdout(), "{}", text)
+		.map_err(|_| ())
 }
 
 
@@ -889,8 +904,8 @@ fn print_usage(use_colors: bool)
 		}
 	}
 
-	println!("");
-	println!("{}", styler.result);
+	let _ = print_line("");
+	let _ = print_line(&styler.result);
 }
 
 
@@ -910,16 +925,16 @@ fn print_version_short()
 	}
 
 
-	println!("{} {} ({}{})",
+	let _ = print_line(&format!("{} {} ({}{})",
 		env!("CARGO_PKG_NAME"),
 		version,
 		date,
-		env!("VERGEN_TARGET_TRIPLE"));
+		env!("VERGEN_TARGET_TRIPLE")));
 }
 
 
 fn print_version_full()
 {
 	print_version_short();
-	println!("https://github.com/hlorenzi/customasm");
+	let _ = print_line("https://github.com/hlorenzi/customasm");
 }
